@@ -81,6 +81,7 @@ func main() {
 			c.Require("dgram.fate.late", 1)
 			c.Require("sync_rounds_failed", 1)
 			c.Require("event.rotate", 1)
+			c.Require("event.week_later", 1)
 			c.Require("event.restart", 1)
 			c.Require("dense_scenarios_judged", 20)
 			c.Require("cutoff_scenarios_judged", 3)
@@ -189,6 +190,8 @@ type scenario struct {
 	Event      string      `json:"event"`
 	LateGroup  bool        `json:"last_group_written_during_event"`
 	LateOrig   bool        `json:"originals_overtaken_by_retransmissions"`
+	WeekLater  bool        `json:"received_slots_recur_one_week_later_and_are_lost,omitempty"`
+	Now2       uint32      `json:"now2,omitempty"`
 	LossA      int         `json:"orig_loss_mask,omitempty"`
 	LossB      int         `json:"retrans_loss_mask,omitempty"`
 	DenseLost  []uint32    `json:"dense_lost_slots,omitempty"`
@@ -689,6 +692,34 @@ func runScenario(sc *scenario, b run.Batch, r *ev.Result) (fatal bool) {
 			sc.Rounds[k] = sc.Rounds[k][:1]
 		}
 	}
+	if !exh && !dense && !fdshort && !udpdown && !sc.LateOrig && sc.Index%10 == 3 {
+		// "one week later": a handful of slots in the upper half of the window are reported and RECEIVED, the
+		// window rotates (the server stays up), the clock moves on by exactly one week, and the device's reports
+		// for the slots exactly 2016 later are all lost on the way. A sync round must bring every one of them in:
+		// whatever the server remembers about last week's slots says nothing about this week's.
+		sc.WeekLater = true
+		sc.Event, sc.Groups, sc.LateGroup, sc.InitialG0, sc.Decoys, sc.Rounds = "rotate", 2, true, false, 0, nil
+		sc.Now0 = O + 2900 + uint32(rng.Intn(301))
+		sc.Now1 = O + 3201 + uint32(rng.Intn(150))
+		sc.Now2 = sc.Now0 + 2016
+		sc.Rows = nil
+		used := map[uint32]bool{}
+		for len(sc.Rows) < 5+rng.Intn(6) {
+			s := sc.Now0 - uint32(rng.Intn(400))
+			if used[s] {
+				continue
+			}
+			used[s] = true
+			cl := []string{"positive", "negative"}[rng.Intn(2)]
+			sc.Rows = append(sc.Rows, row{Slot: s, Class: cl, Text: genValue(rng, cl), Group: 0})
+		}
+		sort.Slice(sc.Rows, func(i, j int) bool { return sc.Rows[i].Slot < sc.Rows[j].Slot })
+		n0 := len(sc.Rows)
+		for i := 0; i < n0; i++ {
+			cl := []string{"positive", "negative"}[rng.Intn(2)]
+			sc.Rows = append(sc.Rows, row{Slot: sc.Rows[i].Slot + 2016, Class: cl, Text: genValue(rng, cl), Group: 1})
+		}
+	}
 	drv.SetClock(sc.Now0)
 	minSlot, latest := sc.Rows[0].Slot, sc.Rows[0].Slot
 	for _, rw := range sc.Rows {
@@ -745,6 +776,8 @@ func runScenario(sc *scenario, b run.Batch, r *ev.Result) (fatal bool) {
 		x.relay.SetPhase("originals", fateMask(sc.LossA))
 	} else if dense {
 		x.relay.SetPhase("originals", fateDense)
+	} else if sc.WeekLater {
+		x.relay.SetPhase("originals", func(uint32, int) Fate { return Deliver })
 	} else if sc.LateOrig {
 		x.relay.SetPhase("originals", func(uint32, int) Fate { return Late })
 	} else {
@@ -948,7 +981,15 @@ func runScenario(sc *scenario, b run.Batch, r *ev.Result) (fatal bool) {
 	} else {
 		drv.SetClock(sc.Now1)
 	}
-	if sc.LateGroup && !strings.Contains(sc.Event, "restart") && sc.Event != "udpdown" {
+	if sc.WeekLater {
+		x.trace("clock advances by one week to %d", sc.Now2)
+		drv.SetClock(sc.Now2)
+		x.relay.SetPhase("late-originals", func(uint32, int) Fate { return Drop })
+		if err := x.writeGroup(env, sc.Groups-1); err != nil {
+			return inconc("%v", err)
+		}
+		r.Count("event.week_later", 1)
+	} else if sc.LateGroup && !strings.Contains(sc.Event, "restart") && sc.Event != "udpdown" {
 		x.relay.SetPhase("late-originals", fateRandom("l", 45, 30, 10, 15))
 		if err := x.writeGroup(env, sc.Groups-1); err != nil {
 			return inconc("%v", err)
